@@ -1674,6 +1674,8 @@ class Bits:
             group_chars2 = Bits._chars_per_group(bits_per_group, name2)
             # The number of characters that get added when we add an extra group (after the first one)
             total_group_chars = group_chars1 + group_chars2 + len(sep) + len(sep) * bool(group_chars2)
+            if total_group_chars == 0:
+                raise ValueError(f"Can't pretty print with the format '{name1}' and an empty separator as each group has no width.")
             width_excluding_offset_and_final_group = width - offset_width - group_chars1 - group_chars2 - len(
                 format_sep) * bool(group_chars2)
             width_excluding_offset_and_final_group = max(width_excluding_offset_and_final_group, 0)
